@@ -42,6 +42,8 @@ impl<K: NumericId> NotificationList<K> {
         self.inner
             .states
             .resize_with(index + 1, NotificationState::default);
+        #[cfg(feature = "verif-hooks")]
+        crate::verif::yield_point(crate::verif::site::NLIST);
         {
             let read_guard = self.inner.states.read();
             let state = &read_guard[index];
@@ -53,6 +55,8 @@ impl<K: NumericId> NotificationList<K> {
             }
         }
         // We were the first to notify this state. Record this `item`.
+        #[cfg(feature = "verif-hooks")]
+        crate::verif::yield_point(crate::verif::site::NLIST);
         self.inner.notified.lock().unwrap().push(item);
     }
 
